@@ -15,6 +15,9 @@ type Instance struct {
 	Root     func() // scenario script run under the scheduler (E1)
 	MaxSteps int
 	NoCache  bool
+	// StartBound is the first deviation bound to explore (default 0; deep copies start at their own bound,
+	// which with pruning covers all lower ones).
+	StartBound int
 	// PruneFrom is the smallest deviation bound explored with fingerprint pruning (default 0: always pruned).
 	PruneFrom int
 	// Seq runs a sequential enumeration (E2/E3) instead of a scheduled scenario.
